@@ -19,7 +19,6 @@ VERIF = os.path.dirname(os.path.dirname(os.path.abspath(__file__)))
 DOCUMENTED_MISSES = {"C09-endstringcommented-guard-lost": "byte-identity with the pinned release is differential; not decided (DESIGN §13)",
                      "C09c-qualified-macro-special-case-2024": "a new `>= Edition2024` test is constant on 2015/2018/2021; that 2024 itself is frozen is differential (DESIGN §13)",
                      "C19c-hunk-body-tracking-miscounts-stripped-blank-context": "a stateful hunk-body tracker is a legitimate design; that this one miscounts stripped blank context lines is a value-level fact (DESIGN §13)",
-                     "C03d-default-field-values-drop-trailing-comments": "struct fields are items: they are pushed without the lost-comment net (DESIGN §15), and the new layout is gated on >= 2024, which the C09 rules cannot distinguish from a legitimate gate",
                      "C08c-leading-blank-skip-only-strips-bare-newlines": "which characters count as blank at the start of a file is a value-level fact of skip_empty_lines; no exact structural clause (DESIGN §13)"}
 LEVELS = {"C06": "proof", "C09": "proof", "C20": "proof"}
 
